@@ -158,8 +158,7 @@ type (
 		prev    *WithdrawRecord
 	}
 	validatorDelWithdrawChange struct {
-		address *common.Address
-		prev    *WithdrawRecord
+		prevRecords []*WithdrawRecord // the whole queue before the removal, in order
 	}
 )
 
@@ -175,7 +174,9 @@ func (ch validatorCreateChange) dirtied() *common.Address {
 }
 
 func (ch validatorDeleteChange) revert(s *StateDB) {
+	ch.oldVal.deleted = false
 	s.setValidator(ch.oldVal)
+	s.incrValidatorsStat(ch.oldVal)
 }
 
 func (ch validatorDeleteChange) dirtied() *common.Address {
@@ -206,7 +207,7 @@ func (ch validatorAddUBDChange) dirtied() *common.Address {
 
 func (ch validatorDelWithdrawChange) revert(s *StateDB) {
 	if queue, err := s.getWithdrawQueue(); err == nil && queue != nil {
-		queue.Add(ch.prev)
+		queue.Records = ch.prevRecords
 	}
 }
 
